@@ -15,6 +15,7 @@ import ast
 import collections.abc
 import enum
 import math
+import re
 import numbers
 import sys
 import types
@@ -188,7 +189,7 @@ PURE = {
     "math.floor": math.floor, "math.ceil": math.ceil, "math.isinf": math.isinf, "math.isnan": math.isnan, "math.isfinite": math.isfinite,
     "math.trunc": math.trunc, "math.copysign": math.copysign, "math.sqrt": math.sqrt, "math.fabs": math.fabs, "math.isclose": math.isclose,
     "math.log": math.log, "math.exp": math.exp, "isclass": lambda x: isinstance(x, type), "inspect.isclass": lambda x: isinstance(x, type),
-    "issubclass": issubclass, "dir": dir, "map": map, "filter": filter, "reversed": reversed, "iter": iter, "next": next, "dict": dict, "frozenset": frozenset, "getattr": getattr, "hasattr": hasattr, "id": id, "hex": hex,
+    "re.compile": re.compile, "re.fullmatch": re.fullmatch, "re.match": re.match, "re.search": re.search, "issubclass": issubclass, "dir": dir, "map": map, "filter": filter, "reversed": reversed, "iter": iter, "next": next, "dict": dict, "frozenset": frozenset, "getattr": getattr, "hasattr": hasattr, "id": id, "hex": hex,
 }
 import builtins as _builtins  # noqa: E402
 
